@@ -369,6 +369,8 @@ type NodeCfg struct {
 	Types []datatransfer.TypeIdentifier
 	// retry parameters of the network layer
 	Attempts float64
+	// AllowReadyErr: a manager whose readiness reports an error (failed migration) still counts as started
+	AllowReadyErr bool
 }
 
 type Node struct {
@@ -402,6 +404,7 @@ type Node struct {
 	ChStores   map[datatransfer.ChannelID]*Store
 	TpCalls      []TpCall
 	gsHist       []*GS
+	ReadyErr     error // what the manager's readiness reported (only with Cfg.AllowReadyErr)
 	AllGSCalls   []GSCall
 	CrashedLives map[int]bool // lives that began after a crash (not a clean stop)
 	LifeStart    map[int]int  // scheduling step at which each life began
@@ -472,8 +475,11 @@ func (n *Node) Start() bool {
 		n.PostStart(m)
 	}
 	if e := simrt.Recv(ready); e != nil {
-		n.r.HarnessErr = "manager ready: " + e.Error()
-		return false
+		if !n.Cfg.AllowReadyErr {
+			n.r.HarnessErr = "manager ready: " + e.Error()
+			return false
+		}
+		n.ReadyErr = e
 	}
 	n.Mgr = m
 	n.Up = true
